@@ -493,13 +493,37 @@ Definition step (k : caps) (s : state) (o : op) : state * list out :=
   | OSecondConnect c now => do_second_connect k c now s
   end.
 
-(* trace of a history: per operation the outputs and the state before and after *)
-Record tstep := { t_op : op; t_outs : list out; t_pre : state; t_post : state }.
+(* hook reports of a clean start that replaces an existing session (inheritClientSession, first
+   branch): UnsubscribeClient(existing) reports every filter through OnUnsubscribed (the object is
+   not yet marked taken over) and existing.ClearInflights() reports every in-flight record through
+   OnQosDropped - this is what lets a persistent store forget the discarded session.  The resume
+   branch reports nothing (the records move to the new object; UnsubscribeClient returns early). *)
+Inductive hev :=
+| HDropped (id payload : bytes)     (* OnQosDropped(client id, message) *)
+| HUnsub (id f : bytes).            (* OnUnsubscribed(client id, filter) *)
+
+Definition hook_events (k : caps) (s : state) (o : op) : list hev :=
+  match o with
+  | OConnect c now p a e =>
+      if memN c (st_used s) || cp_trunc p || negb (validate_connect k p =? 0) || negb a then []
+      else
+        match client_of s e with
+        | Some eo =>
+            if cp_clean p || (o_clean eo && (o_ver eo <? 5)) then
+              map (fun fq => HUnsub e (fst fq)) (o_subs eo) ++ map (fun m => HDropped e (m_payload m)) (o_infl eo)
+            else []
+        | None => []
+        end
+  | _ => []
+  end.
+
+(* trace of a history: per operation the outputs, the hook reports and the state before and after *)
+Record tstep := { t_op : op; t_outs : list out; t_hooks : list hev; t_pre : state; t_post : state }.
 
 Fixpoint trace (k : caps) (s : state) (ops : list op) : list tstep :=
   match ops with
   | [] => []
   | o :: r =>
       let (s', outs) := step k s o in
-      {| t_op := o; t_outs := outs; t_pre := s; t_post := s' |} :: trace k s' r
+      {| t_op := o; t_outs := outs; t_hooks := hook_events k s o; t_pre := s; t_post := s' |} :: trace k s' r
   end.
